@@ -210,6 +210,7 @@ type State struct {
 	Resume  *poResume
 	POThreads []POThreadSpec
 	SiteVisits map[uint64]int
+	Rp         *rpState // schedule replay of a partial-order counterexample
 	// results for the harness
 	Result []Value
 }
@@ -250,6 +251,9 @@ func (st *State) Fork() *State {
 		n.Panic = &p
 	}
 	n.POThreads = append([]POThreadSpec(nil), st.POThreads...)
+	if st.Rp != nil {
+		n.Rp = st.Rp.clone()
+	}
 	if st.SiteVisits != nil {
 		n.SiteVisits = make(map[uint64]int, len(st.SiteVisits))
 		for k, v := range st.SiteVisits {
